@@ -411,3 +411,88 @@ Example C03_ex_rows :
 Proof. vm_compute. auto. Qed.
 End ClkoffEx.
 (* ==================================================================== END clock-offset table *)
+
+(* ==== stepping functions from source (unit stepper) ==== *)
+(* step_stream, update_clocks and player_step are regenerated from src/emu/player.c statement by statement
+   (translate/units/stepper.py -> Gen/Stepper_gen.v over Emu/StepperPre.v).  Primitives: heap_insert /
+   heap_pop_max with the meaning of Emu/HeapDefs.v (`insert stream_cmp`, `pop_max stream_cmp`; theorems
+   C03_heap_* above, comparator tied by unit cmp_player), heap_elem, emu_ev; the loops over the streams in
+   player_init and check_clock_gate are NOT translated (PlayerDefs.pinit / gate_ok stay hand-written).
+   First theorem: the generated functions are their hand-written readings (StepperPre.m_...).
+   Second theorem (partial): the readings against PlayerDefs.pstep = restep + pop_part.  What is proved:
+   the re-insertion of the stream delivered last after stepping it, the pop of the minimum, first_event /
+   firstclock / lastclock / deltaclock (wrap-around), the backwards check, the same verdict.  What is a
+   hypothesis: the byte level delivers the model's events (StepperProofs.stream_iface: discharged for a
+   well-formed stream by C19_stream_step_from_source_partial + the tiling theorems of C19/C12), the key of a
+   heap node is the lastclock of its stream, and the popped stream has an event (PlayerProofs' invariant). *)
+From OV Require Emu.StepperPre Gen.Stepper_gen Proofs.StepperProofs.
+
+Theorem C03_player_step_from_source : forall sx st,
+  (forall id, (id < length (StepperPre.streams st))%nat ->
+     Stepper_gen.step_stream (Some tt) (Some id) sx st = StepperPre.m_step_stream st id) /\
+  (forall id, Stepper_gen.update_clocks (Some tt) (Some id) sx st =
+     match StepperPre.m_update_clocks (StepperPre.pl st) (StepperPre.g_lastclock (nth id (StepperPre.streams st) StepperPre.g0)) with
+     | None => StepperPre.Fail StepperPre.E_FAIL
+     | Some q => StepperPre.Done tt (StepperPre.mk_pstate (StepperPre.streams st) q)
+     end) /\
+  ((forall id, StepperPre.q_stream (StepperPre.pl st) = Some id -> (id < length (StepperPre.streams st))%nat) ->
+   Stepper_gen.player_step (Some tt) sx st = StepperPre.m_player_step st).
+Proof. exact StepperProofs.player_functions_from_source. Qed.
+Print Assumptions C03_player_step_from_source.
+
+Theorem C03_player_step_refines_ploop_partial :
+  (forall sorted offs ps, pstep sorted offs ps =
+     match restep sorted offs ps with inl v => SErr v | inr st1 => StepperProofs.pop_part sorted st1 end) /\
+  (forall sorted offs st ps id slast,
+     p_cur ps = Some (id, slast) -> StepperPre.q_heap (StepperPre.pl st) = p_heap ps ->
+     StepperProofs.stream_iface sorted offs st id slast (nth id (p_rem ps) []) ->
+     match restep sorted offs ps, StepperPre.m_step_stream st id with
+     | inl v, StepperPre.Fail e => v = VBackStream id /\ e = StepperPre.E_FAIL
+     | inr ps1, StepperPre.Done _ st1 | inr ps1, StepperPre.Stop st1 =>
+         StepperPre.q_heap (StepperPre.pl st1) = p_heap ps1 /\ p_rem ps1 = p_rem ps /\ p_clk ps1 = p_clk ps /\
+         p_cur ps1 = p_cur ps /\ StepperProofs.clk_of (StepperPre.pl st1) = StepperProofs.clk_of (StepperPre.pl st) /\
+         StepperPre.q_unsorted (StepperPre.pl st1) = StepperPre.q_unsorted (StepperPre.pl st) /\
+         StepperPre.q_stream (StepperPre.pl st1) = StepperPre.q_stream (StepperPre.pl st)
+     | _, _ => False
+     end) /\
+  (forall st1 ps1,
+     StepperPre.q_heap (StepperPre.pl st1) = p_heap ps1 -> StepperProofs.clk_of (StepperPre.pl st1) = p_clk ps1 ->
+     (forall k id h', pop_max stream_cmp (p_heap ps1) = Some ((k, id), h') ->
+        StepperPre.g_lastclock (nth id (StepperPre.streams st1) StepperPre.g0) = k /\ nth id (p_rem ps1) [] <> []) ->
+     match StepperProofs.pop_part (StepperPre.q_unsorted (StepperPre.pl st1) =? 0) ps1, StepperPre.m_pop_emit st1 with
+     | SDone, StepperPre.Stop s => s = st1
+     | SErr v, StepperPre.Fail e => v = VBackPlayer /\ e = StepperPre.E_FAIL
+     | SEmit o ps2, StepperPre.Done _ st2 =>
+         StepperPre.streams st2 = StepperPre.streams st1 /\ StepperPre.q_heap (StepperPre.pl st2) = p_heap ps2 /\
+         StepperProofs.clk_of (StepperPre.pl st2) = p_clk ps2 /\
+         p_cur ps2 = option_map (fun id => (id, StepperPre.g_lastclock (nth id (StepperPre.streams st2) StepperPre.g0)))
+                                (StepperPre.q_stream (StepperPre.pl st2)) /\
+         StepperPre.q_stream (StepperPre.pl st2) = Some (o_id o) /\
+         StepperPre.q_ev (StepperPre.pl st2) =
+           Some (StepperPre.g_cur (nth (o_id o) (StepperPre.streams st1) StepperPre.g0), o_sclock o,
+                 StepperProofs.wdiff (o_sclock o) (o_sclock o - o_dclock o))
+     | _, _ => False
+     end).
+Proof. exact (conj StepperProofs.pstep_split (conj StepperProofs.restep_refines StepperProofs.pop_emit_refines)). Qed.
+Print Assumptions C03_player_step_refines_ploop_partial.
+
+(* two streams (clock offset -3 on the first): the generated player_step delivers 7, 20, 27, 40 then +1 *)
+Definition ex_ev (c : Z) : list Z := [0; 79; 72; 120; c; 0; 0; 0; 0; 0; 0; 0].
+Definition ex_pworld : StepperPre.pstate :=
+  StepperPre.mk_pstate
+    [ StepperPre.mk_gstream (StreamProofs.hdr ++ ex_ev 10 ++ ex_ev 30) StreamProofs.zero_junk None 32 0 0 (-3) 1 0 8;
+      StepperPre.mk_gstream (StreamProofs.hdr ++ ex_ev 20 ++ ex_ev 40) StreamProofs.zero_junk None 32 0 0 0 1 0 8 ]
+    (StepperPre.mk_gplayer [] 0 0 0 0 1 0 None None).
+Definition ex_then (f : StepperPre.pstate -> StepperPre.res unit) (r : StepperPre.res unit) : StepperPre.res unit :=
+  match r with StepperPre.Done _ s => f s | r => r end.
+Definition ex_emitted (r : StepperPre.res unit) : option (option (option (nat * Z) * Z * Z)) :=
+  match r with StepperPre.Done _ s => Some (StepperPre.q_ev (StepperPre.pl s)) | StepperPre.Stop _ => Some None | StepperPre.Fail _ => None end.
+Example C03_ex_player_step_from_source :
+  let init := ex_then (Stepper_gen.step_stream (Some tt) (Some 1%nat) tt) (Stepper_gen.step_stream (Some tt) (Some 0%nat) tt ex_pworld) in
+  let step := ex_then (Stepper_gen.player_step (Some tt) tt) in
+  map ex_emitted [step init; step (step init); step (step (step init)); step (step (step (step init)));
+                  step (step (step (step (step init))))] =
+  [ Some (Some (Some (0%nat, 8), 7, 0)); Some (Some (Some (1%nat, 8), 20, 13)); Some (Some (Some (0%nat, 20), 27, 20));
+    Some (Some (Some (1%nat, 20), 40, 33)); Some None ].
+Proof. vm_compute. reflexivity. Qed.
+(* ==== end of block (unit stepper) ==== *)
